@@ -20,7 +20,7 @@ From SV Require Import Model.WireIpv4 Proofs.WireIpv4Proofs.
 From SV Require Import Model.WireIpv6 Proofs.WireIpv6Proofs.
 From SV Require Import Model.WireIcmpv4 Proofs.WireIcmpv4Proofs.
 From SV Require Import Model.WireIcmpv6 Proofs.WireIcmpv6Proofs.
-From SV Require Import Model.WireTcp Proofs.WireTcpProofs Proofs.WireTcpEmitProofs.
+From SV Require Import Model.WireTcp Proofs.WireTcpProofs Proofs.WireTcpEmitProofs Proofs.WireTcpParseProofs.
 
 (* ---------------- Ethernet II (src/wire/ethernet.rs) ---------------- *)
 
@@ -280,3 +280,10 @@ Theorem C06_tcp_emit_ignores_old_bytes : forall sum_fill tx r b1 b2,
   tcp_emit sum_fill tx r b1 = tcp_emit sum_fill tx r b2.
 Proof. exact tcp_emit_ignores_old_bytes. Qed.
 Print Assumptions C06_tcp_emit_ignores_old_bytes.
+
+Theorem C06_tcp_roundtrip : forall sum_ok sum_fill tx rx r b,
+  tcp_cksum_link sum_ok sum_fill -> tcp_wf r = true -> (rx = true -> tx = true) ->
+  blen b = tcp_buffer_len r ->
+  exists bs, tcp_emit sum_fill tx r b = Ok bs /\ blen bs = tcp_buffer_len r /\ tcp_parse sum_ok rx bs = Ok r.
+Proof. exact tcp_roundtrip. Qed.
+Print Assumptions C06_tcp_roundtrip.
